@@ -439,7 +439,114 @@ def r4(F, R):
             ok_out = A.for_loop_handles_every_element(nb, nexts[outer][0], nexts[outer][1], set(loops[inner]), exit_ok=is_ret)
             okf = ok_in and ok_out and not lossy
     R.check(okf, "expand-keeps-order", b, "scenarios.into_iter().flat_map(expand_scenario).collect()", "scenarios are not expanded in place and in order")
-    R.floor(7)
+    # ... of EVERY scenario: the element closure of the flat_map hands each element to the expander on every path (no "nothing to expand"
+    # shortcut of its own: when a scenario is passed through unexpanded is the expander's decision, R4 `raw-scenario-only-without-examples`)
+    for nb in ek:
+        for s_f, t_f in nb.calls(lambda t: callee_is(t, r"Iterator::flat_map$")):
+            kb = A.closure_of_operand(F, nb, t_f["args"][1])
+            if kb is None:
+                fi = op_fn(t_f["args"][1])
+                okk = fi is not None and (F.body(fi.get("res") or fi["path"], nb.crate) is ex or F.body(fi["path"], nb.crate) is ex)
+            else:
+                sites = [s_ for s_, t in kb.calls() if F.callee_body(t, kb.crate) is ex]
+                okk = bool(sites) and not kb.entry_reaches_return(stop=sites)
+            R.check(okk, "expand-every-scenario", kb or nb, "each element goes through expand_scenario",
+                    "a scenario can bypass expand_scenario (a shortcut in the per-scenario closure): an outline the shortcut takes for `nothing to expand` reaches the runner with raw <placeholders>")
+    # ... of every feature: no return of expand_examples before both lists were rebuilt (a `feature has no outlines` fast path must agree
+    # with the rebuild on what an outline is — and on `all` rules, not `any`)
+    resid = [s_ for s_, t in b.calls(lambda t: callee_is(t, r"FromResidual.*::from_residual$"))]
+    for owner in ("gherkin::Feature", "gherkin::Rule"):
+        takes = [s_ for s_, t in b.calls(lambda t: callee_is(t, r"mem::take$")) if (owner, "scenarios") in A.slice_back(b, [t["args"][0]]).fields]
+        if owner == "gherkin::Rule":
+            # the loop over the rules may run zero times: what every return must pass is the creation of its iterator
+            takes = [s_ for s_, t in b.calls(lambda t: callee_is(t, r"IntoIterator::into_iter$|slice::.*::iter_mut$|Vec::<.*>::iter_mut$|Iterator::try_for_each$|Iterator::for_each$"))
+                     if ("gherkin::Feature", "rules") in A.slice_back(b, [t["args"][0]]).fields]
+        okp = bool(takes) and not b.entry_reaches_return(stop=takes + resid)
+        if not okp and takes and _fast_path_is_exact(F, b, takes + resid):
+            okp = True   # a fast path taken exactly when NO scenario of the feature and of ALL its rules has Examples: nothing to expand
+        R.check(okp, f"expand-on-every-path/{owner.split('::')[1]}", takes[0] if takes else b, f"no return before the {owner.split('::')[1].lower()}'s scenarios were rebuilt",
+                f"expand_examples can return before the {owner.split('::')[1].lower()}-level scenarios were expanded (an early-return fast path): outlines it misjudges stay unexpanded")
+    R.floor(10)
+
+
+def _plain_test(F, body, term, depth=0):
+    """Is the call `term` (in `body`) a test "none of these scenarios has Examples": `iter.all(|s| s.examples.is_empty())`, such a test nested
+    in an `all` over the rules, or a call of a local closure / private fn whose body returns such a test?  Returns the set of gherkin owners
+    whose `scenarios` / `rules` the tested sequence derives from, or None."""
+    if depth > 3:
+        return None
+    def returns_plain(kb):
+        """closure / fn body whose every returned value is a plain-test (or `examples.is_empty()` itself)"""
+        outs = set()
+        sl = A.slice_back(kb, start_locals=[0])
+        cs = [(s_, t) for s_, t in sl.calls if callee_is(t, r"Iterator::all$|::is_empty$|ops::Fn(Mut|Once)?::call(_mut|_once)?$") or F.callee_body(t, kb.crate) is not None]
+        if not cs or any(callee_is(t, r"Iterator::any$") for _, t in sl.calls):
+            return None
+        for s_, t in cs:
+            if callee_is(t, r"::is_empty$"):
+                if ("gherkin::Scenario", "examples") not in A.slice_back(kb, [t["args"][0]]).fields:
+                    return None
+                outs.add("leaf")
+            else:
+                sub = _plain_test(F, kb, t, depth + 1)
+                if sub is None:
+                    return None
+                outs |= sub
+        return outs
+    if callee_is(term, r"Iterator::all$"):
+        kb = A.closure_of_operand(F, body, term["args"][1])
+        if kb is None:
+            return None
+        inner = returns_plain(kb)
+        if inner is None:
+            return None
+        recv = A.slice_back(body, [term["args"][0]]).fields
+        return {o for o, n in recv if n in ("scenarios", "rules")} | (inner - {"leaf"})
+    kb = None
+    if callee_is(term, r"ops::Fn(Mut|Once)?::call(_mut|_once)?$"):
+        kb = A.closure_of_operand(F, body, term["args"][0])
+    elif F.callee_body(term, body.crate) is not None:
+        kb = F.callee_body(term, body.crate)
+    if kb is None:
+        return None
+    inner = returns_plain(kb)
+    if inner is None:
+        return None
+    args = [a for a in term["args"]]
+    recv = set()
+    for a in args:
+        recv |= {o for o, n in A.slice_back(body, [a]).fields if n in ("scenarios", "rules")}
+    return recv | (inner - {"leaf"})
+
+
+def _fast_path_is_exact(F, b, stops):
+    """Every return of `b` that passes none of `stops` is guarded ONLY by positive plain-tests (see _plain_test), and together they cover the
+    feature's own scenarios and (all of) its rules."""
+    stop_bbs = {s_.bb for s_ in stops}
+    free = b.reachable_blocks(0, cut_blocks=frozenset(stop_bbs))
+    rets = [Site(b, x, "T") for x in free if b.blocks[x]["term"]["k"] == "return"]
+    if not rets:
+        return False
+    # the value constructions that flow into those returns
+    sites = [s_ for s_, st in b.assigns(lambda st: st["pl"]["l"] == 0 and not st["pl"]["p"]) if s_.bb in free]
+    if not sites:
+        return False
+    for s_ in sites:
+        covered = set()
+        gs = A.guards_of(b, s_)
+        if not gs:
+            return False
+        for g in gs:
+            d = g.cond_def()
+            if not d or d[0] != "call" or g.polarity() is not True:
+                return False
+            owners = _plain_test(F, b, d[2])
+            if owners is None:
+                return False
+            covered |= owners
+        if not {"gherkin::Feature", "gherkin::Rule"} <= covered:
+            return False
+    return True
 
 
 def r5_clone(F, R):
